@@ -49,6 +49,16 @@ def _mutate(name):
                 memo[key] = real(self, expression)
             return memo[key]
         tales.ExpressionParser.__call__ = __call__
+    elif name == 'split_regex_lookaround':
+        import re as _re
+
+        def split_parts(arg):
+            parts = _re.split(r'(?<!;);(?!;)', str(arg))
+            parts = [p.replace(';;', ';') for p in parts]
+            if len(parts) > 1 and not parts[-1].strip():
+                del parts[-1]
+            return parts
+        tal.split_parts = split_parts
     elif name == 'groups_span_off':
         def groups(m, token):
             result = []
@@ -341,3 +351,49 @@ def pickv(table, idx):
         if idx == j:
             return table[j]
     raise IndexError(idx)
+
+
+# ---- (7) what a ';'-separated statement argument splits into (semantics, not positions) ----------------
+def _ref_split(text):
+    """left to right: ';;' is a literal ';', a single ';' ends the part; a blank last part after a
+    separator is dropped (documented for tal:define / tal:attributes)"""
+    parts = []
+    cur = ''
+    i = 0
+    n = len(text)
+    while i < n:
+        ch = text[i]
+        if ch == ';':
+            if i + 1 < n and text[i + 1] == ';':
+                cur = cur + ';'
+                i += 2
+                continue
+            parts.append(cur)
+            cur = ''
+            i += 1
+            continue
+        cur = cur + ch
+        i += 1
+    parts.append(cur)
+    if len(parts) > 1 and not parts[-1].strip():
+        parts.pop()
+    return parts
+
+
+def split_texts(c0: int, c1: int, c2: int, c3: int, i: int, j: int, ni: bool, nj: bool) -> bool:
+    """
+    pre: 0 <= c0 < 0x110000 and 0 <= c1 < 0x110000 and 0 <= c2 < 0x110000 and 0 <= c3 < 0x110000
+    pre: i == 0 and j == 0
+    post: _
+    """
+    text = build(CFG['shape'], (c0, c1, c2, c3))
+    if '&' in text or '\0' in text:
+        return _res(True)          # entities / the internal placeholder: the known-finding domain of C11
+    got = [str(p) for p in tal.split_parts(token_for(text))]
+    want = _ref_split(text)
+    ok = len(got) == len(want)
+    if ok:
+        for a, b in zip(got, want):
+            if a != b:
+                ok = False
+    return _res(ok)
